@@ -32,6 +32,7 @@ type PropCheck struct {
 	Bounds      func(tier string) string
 	Jobs        func(tier string, prog *ssa.Program) []*Job
 	Extra       func(tier string, ld *Loaded, ev map[string]interface{}) []Finding // non-job obligations (C19 terms, C08 CFG)
+	NoDiff      bool
 }
 
 type Finding struct {
@@ -233,8 +234,38 @@ func runCheck(p *PropCheck, tier string) int {
 			lines = append(lines, fmt.Sprintf("  what: %s", g.sig))
 		}
 	}
+	// translator validation: passing paths must pass natively with the same inputs
+	diffRun, diffBad := 0, 0
+	var dwg sync.WaitGroup
+	var dmu sync.Mutex
+	for _, j := range jobs {
+		if p.NoDiff || j.Threads {
+			continue // schedule-dependent harnesses are validated through their counterexample replays only
+		}
+		for i, inp := range j.res.OkModels {
+			dwg.Add(1)
+			go func(j *Job, i int, inp string) {
+				defer dwg.Done()
+				rsem <- struct{}{}
+				defer func() { <-rsem }()
+				f := Finding{Obligation: j.ID, Kind: "diff", Msg: fmt.Sprintf("passing path %d", i), Inputs: inp, Entry: j.Entry, PkgDir: j.Pkg, Instr: j.ReplayInstr}
+				bad, detail, path := replayFinding(p, f)
+				dmu.Lock()
+				diffRun++
+				if bad || strings.HasPrefix(detail, "ASSUME-FAILED") || strings.HasPrefix(detail, "no outcome") {
+					diffBad++
+					lines = append(lines, fmt.Sprintf("INCONCLUSIVE property=%s obligation=%s translator mismatch: a path that passes symbolically gives %q natively (%s)", p.ID, j.ID, detail, path))
+				}
+				dmu.Unlock()
+			}(j, i, inp)
+		}
+	}
+	dwg.Wait()
+	extraEv["traces_validated"] = diffRun - diffBad
+	extraEv["native_differential_runs"] = diffRun
+	extraEv["native_differential_mismatches"] = diffBad
 	// inconclusive reporting
-	inconc := 0
+	inconc := diffBad
 	for _, j := range jobs {
 		for r, n := range j.res.Inconclusive {
 			inconc += n
@@ -569,7 +600,7 @@ func writeEvidence(p *PropCheck, tier string, seed int, jobs []*Job, findings []
 		if cov["transitions"].(int) < 1 {
 			cov["transitions"] = queries + 1
 		}
-		cov["traces_validated_against_impl"] = int(atomic.LoadInt64(&replayCount)) + intOr(extra["traces_validated"])
+		cov["traces_validated_against_impl"] = intOr(extra["traces_validated"])
 	}
 	for k, v := range extra {
 		cov[k] = v
